@@ -26,6 +26,7 @@ static struct {
 	int expect_ctx2, susp_open, wait_for_others, arm_rel, arm_code, no_cancel;
 	sim_event suspended_by_1, susp_item_done[MAXC]; int susp_item_sent[MAXC];
 	sim_event go, handler_seen;
+	int deep_susp;   // scenario 0: one client nests this many suspensions (64+: side counter) and resumes them all
 	int set_width, q_conc;   // scenario 0: one client changes the width of the (concurrent) queue while others suspend and resume it
 	int client_keys; char ck[MAXC]; int ckd[MAXC]; uint64_t ckd_stamp[MAXC];   // scenario 0: every client sets its own key first thing (a race on the first set_specific)
 } L;
@@ -109,6 +110,14 @@ static void *queue_client(void *arg) {
 		sim_event_wait(&L.suspended_by_1, LIVENESS_NS);
 		sim_point(); dispatch_resume(L.q); L.susp_open--;
 	}
+	// one holder nests its suspensions past the point where the count spills into the side counter, and comes all the way back
+	if (L.deep_susp && c == 1 && !(L.last_from_item && c == 0)) {
+		L.susp_open++;
+		for (int k = 0; k < L.deep_susp; k++) dispatch_suspend(L.q);
+		sim_point();
+		for (int k = 0; k < L.deep_susp; k++) { dispatch_resume(L.q); if ((k & 15) == 15) sim_point(); }
+		L.susp_open--;
+	}
 	// the width is changed a few more times while the other clients suspend and resume the (possibly idle) queue
 	if (L.set_width && !(L.last_from_item && c == 0)) for (int k = 0; k < 3; k++) {   // (client 0's reference may already have been dropped by its last item)
 		if (c == L.nclients - 1) dispatch_queue_set_width(L.q, 5 + k);
@@ -136,6 +145,7 @@ static void scen_queue(void) {
 	dispatch_queue_set_specific(L.root, &L.mark, &L.mark, NULL);
 	dispatch_set_context(L.root, &L.mark); dispatch_set_finalizer_f(L.root, finalizer_root);
 	L.q_conc = g_chance(1, 2); L.set_width = L.q_conc && g_chance(1, 2);
+	L.deep_susp = (L.nclients > 1 && g_chance(1, 6)) ? g_range(62, 70) : 0;
 	L.q = dispatch_queue_create_with_target("c17-q", L.q_conc ? DISPATCH_QUEUE_CONCURRENT : NULL, L.root);
 	L.obj = L.q;
 	dispatch_set_context(L.q, &L.ctx1); dispatch_set_finalizer_f(L.q, finalizer_obj);
@@ -525,6 +535,8 @@ static int rt_new_queue(int conc) {
 static void *retarget_client(void *arg) {
 	int c = (int)(intptr_t)arg;
 	sim_event_wait(&L.go, LIVENESS_NS);
+	// a not yet activated queue or source is also suspended and resumed meanwhile (balanced): its references must come out even
+	if ((RT.kind == 2 || RT.kind == 3) && L.susp && c < 2) { dispatch_suspend(RT.o); sim_point(); dispatch_resume(RT.o); }
 	for (int r = 0; r < L.nitems_per; r++) {
 		int i = rt_new_queue((c + r) & 1);
 		if (L.arm_rel && r == 0 && c < 2) sim_arm_stall((uint32_t)(1 + L.arm_rel % 12), L.arm_code);
